@@ -444,6 +444,7 @@ type FuncSpec struct {
 	Requires  []*Clause
 	Ensures   []*Clause
 	Flows     []FlowSpec
+	Inplace   []string  // slice parameters whose elements the function rearranges in place ("inplace p"; post-state named final(p))
 	AtCalls   []*AtCall // call-site clauses: asserted at every call of the named callee inside this function
 	Receives  []*Clause // channel invariants: "receives <chan>: P($msg)" (assumed when receiving from <chan>)
 	Callback  bool      // function-type contract of a user callback: its effects are not attributed to the caller's frame
@@ -575,7 +576,7 @@ func parseModifies(rest, where string) ([]*SExpr, error) {
 
 var specKeywords = map[string]bool{"func": true, "props": true, "requires": true, "ensures": true, "modifies": true,
 	"loop": true, "invariant": true, "decreases": true, "step": true, "spec": true, "axiom": true, "lemma": true, "trusted": true,
-	"pure": true, "end": true, "allocates": true, "maypanic": true, "ghost": true, "implements": true, "defines": true, "receives": true, "callback": true, "onlyflows": true, "atcall": true}
+	"pure": true, "end": true, "allocates": true, "maypanic": true, "ghost": true, "implements": true, "defines": true, "receives": true, "callback": true, "onlyflows": true, "atcall": true, "inplace": true}
 
 // parseSpecFile reads one verif_contracts.go file.
 func parseSpecFile(path, pkg string) (*SpecFile, error) {
@@ -691,6 +692,13 @@ func parseSpecFile(path, pkg string) (*SpecFile, error) {
 		case "callback":
 			if curF != nil {
 				curF.Callback = true
+			}
+		case "inplace":
+			if curF == nil {
+				return nil, fmt.Errorf("%s: inplace outside func", l.where)
+			}
+			for _, pn := range strings.Fields(strings.ReplaceAll(rest, ",", " ")) {
+				curF.Inplace = append(curF.Inplace, pn)
 			}
 		case "onlyflows":
 			// onlyflows <param> <callee> {props}: the parameter is used only as an argument of calls to <callee>
